@@ -38,7 +38,7 @@ RxU == SeqSet(RxSeq)
 MetU == SeqSet(MetSeq)
 GeneU == SeqSet(GeneSeq)
 GrpU == SeqSet(GrpSeq)
-AllIds == RxU \cup MetU \cup GeneU \cup GrpU
+AllIds == RxU \cup MetU \cup GeneU \cup GrpU \cup {"MODEL"}     \* "MODEL": the model's own notes / annotation
 
 \* compartments are static: ids ending in "e" ... are external.  ExtMets is given by
 \* naming convention of the universe: the metabolites listed in ExtMetSeq
@@ -130,8 +130,8 @@ Canon(C) ==
             !.member = [g \in GrpU |-> IF g \in C.groups
                                        THEN C.member[g] \cap (C.rxns \cup C.mets \cup C.genes \cup C.groups)
                                        ELSE {}],
-            !.ann = [x \in AllIds |-> IF x \in (C.rxns \cup C.mets \cup C.genes) THEN C.ann[x] ELSE 0],
-            !.note = [x \in AllIds |-> IF x \in (C.rxns \cup C.mets \cup C.genes) THEN C.note[x] ELSE 0]]
+            !.ann = [x \in AllIds |-> IF x \in (C.rxns \cup C.mets \cup C.genes \cup {"MODEL"}) THEN C.ann[x] ELSE 0],
+            !.note = [x \in AllIds |-> IF x \in (C.rxns \cup C.mets \cup C.genes \cup {"MODEL"}) THEN C.note[x] ELSE 0]]
 
 \* ------------------------------------------------------------------ results
 Res(C, raises, atomic, ret) == [c |-> C, raises |-> raises, atomic |-> atomic, ret |-> ret]
@@ -368,7 +368,7 @@ A_AddGroup(C, g, members) ==
   ELSE Ok([C EXCEPT !.groups = @ \cup {g}, !.member[g] = members])
 A_RemoveGroup(C, g) == IF g \in C.groups THEN Ok([C EXCEPT !.groups = @ \ {g}]) ELSE Ok(C)
 A_Annotate(C, x, v, via) ==     \* via 0: annotation[k] = v; 1: annotation = {...}; 2: notes[k] = v as well
-  IF x \notin (C.rxns \cup C.mets \cup C.genes) THEN FailLoose(C, "skip")
+  IF x \notin (C.rxns \cup C.mets \cup C.genes \cup {"MODEL"}) THEN FailLoose(C, "skip")
   ELSE Ok([C EXCEPT !.ann[x] = v, !.note[x] = IF via = 2 THEN v ELSE @])
 
 \* io round trips: what import(export(model)) is documented to preserve.  Pickle keeps everything (it carries
@@ -498,8 +498,16 @@ Apply(op, St) ==
   ELSE IF op.a = "NewModel" THEN
      SRes([St EXCEPT !.m[s] = EmptyContent(op.solver), !.ctx[s] = <<>>, !.helper[s] = 0, !.sw[s] = FALSE, !.taint[s] = FALSE],
           "none", TRUE, NoRet)
+  ELSE IF op.a = "LoadDoc" THEN        \* ... import later, into slot op.s (whatever happened in between)
+     IF "fmt" \notin DOMAIN St.doc \/ (IsModel(St.m[s]) /\ Len(St.ctx[s]) > 0) THEN Skip(St)
+     ELSE LET r == A_RoundTrip(St.doc.c, St.doc.fmt) IN
+          SRes([St EXCEPT !.m[s] = r.c, !.ctx[s] = <<>>, !.helper[s] = 0, !.sw[s] = FALSE, !.taint[s] = FALSE],
+               "none", TRUE, NoRet)
   ELSE IF ~IsModel(St.m[s]) THEN Skip(St)
   ELSE IF op.a = "RoundTrip" /\ Len(St.ctx[s]) > 0 THEN Skip(St)      \* the loaded model replaces the object
+  ELSE IF op.a = "SaveDoc" THEN        \* export now ...
+     IF ~IsModel(St.m[s]) \/ St.helper[s] # 0 THEN Skip(St)
+     ELSE SRes([St EXCEPT !.doc = [c |-> St.m[s], fmt |-> op.fmt]], "none", TRUE, NoRet)
   ELSE IF op.a = "Merge" THEN
      IF ~IsModel(St.m[op.t]) \/ op.t = s \/ St.helper[s] # 0 \/ St.helper[op.t] # 0 THEN Skip(St)
      ELSE Lift(St, s, A_Merge(St.m[s], St.m[op.t]))
@@ -516,7 +524,9 @@ InitState == [m |-> [s \in Slots |-> NoModel], ctx |-> [s \in Slots |-> <<>>], h
               \* taint[s]: an operation that is NOT documented as reversible (annotations, groups, renaming
               \* reactions/metabolites) was applied while a context was open: the exits of the contexts open at
               \* that time are not judged against their snapshots
-              taint |-> [s \in Slots |-> FALSE]]
+              taint |-> [s \in Slots |-> FALSE],
+              \* doc: a document saved earlier (SaveDoc) and not loaded yet: the content it was saved from + format
+              doc |-> NoModel]
 
 \* ------------------------------------------------------------------ invariants on a content / state
 \* C02: cross references, derived declaratively from the content
